@@ -973,7 +973,13 @@ def oracle_C09(case, obs):
             if is_script(r):
                 continue
             try:
-                gwl.parse_record(r)
+                d0 = gwl.parse_record(r)
+                if d0.get("type") == "R":
+                    ex0 = [int(x) for x in d0["exclude"]]
+                    if ex0 != sorted(ex0):
+                        bad.append(f"field: call {i} ({k}): the exclusion list of {r!r} is not sorted")
+                    if any(not (int(d0["dst_start"]) <= x <= int(d0["dst_end"])) for x in ex0):
+                        bad.append(f"field: call {i} ({k}): an excluded well of {r!r} lies outside the destination range")
             except gwl.GwlError as e:
                 bad.append(f"grammar: call {i} ({k}) emitted a malformed record {r!r}: {e}")
         if st["exc"] is not None and recs and k in ("aspirate_well", "dispense_well", "reagent", "comment", "wash", "decon", "flush", "commit", "set_diti"):
